@@ -2,7 +2,7 @@
     Model: Model/Queue.v (queue.go + backoff.go + container/heap transcribed). A history is any list of
     timed operations (AddOrUpdate, Pop, Bump, SetIndexed with any state, MaybeRemoveMissing, Len, key set)
     on any ids, known or not; [reach bd mx h] is the state after history h from NewQueue(bd, mx). *)
-From ZV Require Import Lib.Base Model.Queue Proofs.QueueHeap Proofs.QueueMap Proofs.QueueInv Proofs.QueueOps Proofs.QueueSpec.
+From ZV Require Import Lib.Base Model.Queue Proofs.QueueHeap Proofs.QueueMap Proofs.QueueInv Proofs.QueueOps Proofs.QueueSpec Proofs.QueueHistory.
 
 Definition reach (bd mx : Z) (h : list (Z * op)) : queue := run (new_queue bd mx) h.
 
@@ -17,6 +17,43 @@ Print Assumptions C30_invariant.
 Theorem C30_enqueued_at_most_once : forall bd mx h, NoDup (q_pq (reach bd mx h)).
 Proof. intros. apply inv_nodup_pq. apply (inv_shape _ (reachable_inv bd mx h)). Qed.
 Print Assumptions C30_enqueued_at_most_once.
+
+(** once per enqueue, history level.  For a repository id classify every step of a history by what it does to
+    id's presence on the queue ([events], Proofs/QueueHistory.v): EEnq = id enters the heap, EPop = a Pop hands
+    out id's item ([pop_id] = the item Pop takes off the heap), ECancel = id leaves the heap in a step that is
+    not a Pop.  In every history the events of every id alternate EEnq, (EPop | ECancel), EEnq, ... starting
+    with EEnq ([alt false l] = Some pending), and an enqueue is still pending exactly when id is on the queue:
+    between two enqueues a repository is yielded at most once, and never without a preceding enqueue. *)
+Theorem C30_once_per_enqueue_alternates : forall bd mx h id,
+  alt false (events id (new_queue bd mx) h) = Some (onb (reach bd mx h) id).
+Proof. exact history_alternates. Qed.
+Print Assumptions C30_once_per_enqueue_alternates.
+
+(** conservation: for every id, #(Pops that yielded id) + #cancellations + [still on the queue] = #enqueues, i.e.
+    the multiset of popped ids is the multiset of enqueue events minus the cancelled and the pending ones *)
+Theorem C30_once_per_enqueue_conservation : forall bd mx h id,
+  count_occ N.eq_dec (popped (new_queue bd mx) h) id + count ECancel (events id (new_queue bd mx) h) +
+  (if onb (reach bd mx h) id then 1 else 0) = count EEnq (events id (new_queue bd mx) h).
+Proof. exact popped_multiset. Qed.
+Print Assumptions C30_once_per_enqueue_conservation.
+
+(** where the events come from: enqueues only from AddOrUpdate(id) and Bump(ids with id), cancellations only from a
+    failed SetIndexed(id) and MaybeRemoveMissing(ids without id), pops only from Pop; and what Pop's caller sees
+    is the current options of the item taken off the heap *)
+Theorem C30_event_sources : forall bd mx h id now o,
+  let q := reach bd mx h in
+  (In EEnq (step_event id q now o) -> (exists ver, o = OAdd id ver) \/ (exists ids, o = OBump ids /\ In id ids)) /\
+  (In ECancel (step_event id q now o) ->
+     (exists ver, o = OSetIndexed id ver st_fail) \/ (exists ids, o = ORemoveMissing ids /\ ~ In id ids)) /\
+  (In EPop (step_event id q now o) -> o = OPop).
+Proof. intros. apply event_sources. apply reachable_inv. Qed.
+Print Assumptions C30_event_sources.
+
+Theorem C30_pop_observed : forall q now,
+  snd (step q now OPop) =
+  RPop (option_map (fun i => let o := it_opts (item_of (q_items (fst (step q now OPop))) i) in (o_repo o, o_ver o)) (pop_id q)).
+Proof. exact pop_observed. Qed.
+Print Assumptions C30_pop_observed.
 
 (** Pop yields a minimum of the enqueued set under the priority order, returns that repository's current
     options, removes exactly it from the queue (once per enqueue, part 2) and keeps it tracked, off the heap. *)
@@ -110,3 +147,11 @@ Example ex_remove_missing : let q := reach 0 0 ex_h in
 Proof. vm_compute. repeat split; discriminate. Qed.
 Example ex_heuristic : let q := reach 0 0 ex_h in NoDup [5; 1; 2; 3]%N /\ incl [5; 1; 2; 3]%N (keys (q_items q)) /\ length (q_items q) = 4.
 Proof. vm_compute. split; [repeat constructor; simpl; intuition discriminate | split; [|reflexivity]]. intros a Ha. simpl in *. intuition. Qed.
+
+(* repository 2 over a history: enqueued, cancelled by a failed SetIndexed, enqueued again, popped, enqueued again *)
+Definition ex_h2 : list (Z * op) :=
+  [(1, OAdd 2 1); (2, OAdd 3 1); (3, OSetIndexed 2 1 1); (4, OAdd 2 2); (5, OPop); (6, OPop); (7, OBump [2; 3; 9]%N); (8, ORemoveMissing [2]%N)]%Z.
+Example ex_events : events 2%N (new_queue 0 0) ex_h2 = [EEnq; ECancel; EEnq; EPop; EEnq] /\
+  events 3%N (new_queue 0 0) ex_h2 = [EEnq; EPop; EEnq; ECancel] /\
+  popped (new_queue 0 0) ex_h2 = [3; 2]%N /\ onb (reach 0 0 ex_h2) 2 = true /\ onb (reach 0 0 ex_h2) 3 = false.
+Proof. vm_compute. repeat split; reflexivity. Qed.
